@@ -225,3 +225,6 @@ func (w *World) Close() {
 
 // NewKHR returns heimdall's own key holder registry.
 func NewKHR() keyholder.Registry { return keyholder.VerifNewRegistry() }
+
+// NopLogger returns a disabled logger.
+func NopLogger() zerolog.Logger { return zerolog.Nop() }
